@@ -423,13 +423,15 @@ func (r *renderer) endpoint(a *App, e *Endpoint) {
 			r.ind(1 + i)
 			r.w("/")
 			if s.Var != "" {
-				r.w("{" + s.Var)
 				if s.VarT != nil {
-					r.w(" <: " + s.VarT.Render())
+					// names are URL-escaped in the source (the grammar takes no escapes in an untyped {name})
+					r.w("{" + EscName(s.Var) + " <: " + s.VarT.Render())
+				} else {
+					r.w("{" + s.Var)
 				}
 				r.w("}")
 			} else {
-				r.w(s.Static)
+				r.w(EscName(s.Static))
 			}
 			r.w(renderAttrs(s.Attrs) + ":\n")
 		}
@@ -447,7 +449,8 @@ func (r *renderer) endpoint(a *App, e *Endpoint) {
 						v += "?"
 					}
 				}
-				q = append(q, x.Name+"="+v)
+				// the query-name token takes no '-': escape it too
+				q = append(q, strings.ReplaceAll(EscName(x.Name), "-", "%2D")+"="+v)
 			}
 			r.w(" ?" + strings.Join(q, "&"))
 		}
